@@ -200,6 +200,12 @@ class Extraction:
         self.sentinels: List[Any] = []
         self.keys: List[Any] = []
         self.proto: Any = None
+        # plain data the class keeps besides its table (a remembered last construction): put back
+        # before every run, and what a run changes is reported (shared state outside the step system)
+        from .symnum import class_scratch
+
+        self.scratch0 = class_scratch(cls)
+        self.extra_state_written: set = set()
 
     # -- callbacks of TraceTable --------------------------------------------------------
     def decide(self, n: int) -> int:
@@ -292,6 +298,9 @@ class Extraction:
                 return local
             return None
 
+        from .symnum import restore_class_scratch
+
+        restore_class_scratch(self.cls, self.scratch0)
         saved = self.cls.__dict__["_known"]
         self.real_table = saved if isinstance(saved, dict) else None
         table = TraceTable(self)
@@ -310,6 +319,7 @@ class Extraction:
         finally:
             sys.settrace(old)
             type.__setattr__(self.cls, "_known", saved)
+            self.extra_state_written.update(restore_class_scratch(self.cls, self.scratch0))
         self.last_result = result
         if len(self.keys) > 1:
             raise HarnessError(f"the constructor consults the table under {len(self.keys)} different keys in one "
